@@ -33,7 +33,7 @@ func (k Keeper) LiquidateVaults(ctx sdk.Context) error {
 			liquidationOffsetHolder = types.NewLiquidationOffsetHolder(appIds[i], 0)
 		}
 		totalVaults := k.vault.GetVaults(ctx)
-		lengthOfVaults := int(k.vault.GetLengthOfVault(ctx))
+		lengthOfVaults := len(totalVaults)
 		//// get all vaults
 		/// range over those vaults
 		//// for length of vaults use vault counter
